@@ -83,3 +83,25 @@ def c3(c: 'Obj[Cls]') -> 'Opt[Seq[Obj[Cls]]]':
 
 def _BASES(c):
     return c.__bases__
+
+
+# ---- lookups along the linearisation ---------------------------------------------------------------------------------
+@opaque
+@reads('_mro')
+def lin(c: 'Ref[Class]') -> 'Seq[Ref[Class]]':
+    """the documented classes of the stored linearisation of c, c first"""
+    return c.mro()
+
+
+def as_class(o: 'Ref[Documentable]') -> 'Ref[Class]':
+    return o
+
+
+@reads('contents')
+def picks(classes: 'Seq[Ref[Class]]', name: 'Str') -> 'Seq[Ref[Documentable]]':
+    """the members called `name` of the given classes, in the order of the classes"""
+    if len(classes) == 0:
+        return []
+    if name in classes[0].contents:
+        return [classes[0].contents[name]] + picks(classes[1:], name)
+    return picks(classes[1:], name)
